@@ -484,6 +484,65 @@ def dat_input_discipline(P, rep, rule="DAT.input"):
                       witness="2D data file with '# convert spherical = true'")
 
 
+def option_loop_discipline(P, rep, tu, rule):
+    """the loop that reads `name = value` option lines of a tool's input file"""
+    rep.rule(rule, "%s: the loop that parses option lines runs over all lines of the file (no break or return leaves it), and no option "
+                   "variable - a local declared before the loop and assigned in it - is read inside the loop: every option depends on its "
+                   "own line only, so neither the position of an option line in the file nor the order of the option lines matters" % tu)
+    F = main_of(P, tu)
+    best = None
+    for x in F.walk():
+        if x.get("k") != "CXXForRangeStmt":
+            continue
+        inside = {v["r"] for v in F.walk(x) if v.get("k") == "VarDecl"}
+        assigned = {}
+        for y in F.walk(x["c"][-1]):
+            if y.get("k") in ("BinaryOperator", "CXXOperatorCallExpr") and y.get("op") == "=":
+                t = sc(y["c"][0])
+                if t.get("k") == "DeclRefExpr" and P.d(t["r"]).get("storage") == "local" and t["r"] not in inside:
+                    assigned.setdefault(t["r"], []).append(y)
+        if len(assigned) >= 3 and (best is None or len(assigned) > len(best[1])):
+            best = (x, assigned)
+    if best is None:
+        rep.unknown(rule, "%s: option loop not identified" % tu)
+        return
+    L, assigned = best
+    names = sorted(P.d(k).get("n", "?") for k in assigned)
+    problems = []
+    # the lines it ranges over: the vector filled by the file-reading loop
+    rng = sc(L["c"][1])
+    if not (rng.get("k") == "DeclRefExpr" and "vector<std::vector<std::" in (rng.get("t") or P.d(rng["r"]).get("t") or "").replace("basic_string", "").replace(" ", "") or rng.get("n") == "data"):
+        problems.append(("range", "the option loop ranges over %s, not over the lines read from the file" % norm.render(P, rng)[:40], L))
+    for y in F.walk(L["c"][-1]):
+        if y.get("k") in ("BreakStmt", "ReturnStmt", "GotoStmt"):
+            tgt = None
+            for a in F.ancestors(y):
+                if a.get("k") in ("SwitchStmt", "ForStmt", "CXXForRangeStmt", "WhileStmt", "DoStmt"):
+                    if a.get("k") == "DoStmt" and a.get("m"):
+                        continue
+                    tgt = a
+                    break
+            if y.get("k") != "BreakStmt" or tgt is L:
+                problems.append(("exit", "the option loop is left by `%s`: option lines after that point are ignored" % y["k"][:-4].lower(), y))
+    for y in F.walk(L["c"][-1]):
+        if y.get("k") == "DeclRefExpr" and y.get("r") in assigned:
+            par = F.parent.get(y["i"])
+            if par is not None and par.get("k") in ("BinaryOperator", "CXXOperatorCallExpr") and par.get("op") == "=" and sc(par["c"][0]) is y:
+                continue
+            problems.append(("order|" + P.d(y["r"]).get("n", "?"), "the option loop reads `%s` while options are still being parsed: the outcome depends on the order of the option lines" % P.d(y["r"]).get("n"), y))
+    if problems:
+        seen = set()
+        for key, why, node in problems:
+            if key in seen:
+                continue
+            seen.add(key)
+            rep.violation(rule, "%s: %s" % (tu, why), F.nloc(node), F.qn, norm.render(P, astq.enclosing(F, node, ("IfStmt", "VarDecl")) or node)[:140],
+                          "the meaning of the input file depends on where an option line stands", key="%s|%s|%s" % (rule, tu, key),
+                          witness="the same file with that option line moved (before / after the other lines)")
+    else:
+        rep.ok(rule, "%s: option loop assigns %d option variables (%s ...), reads none, never leaves early" % (tu, len(assigned), ", ".join(names[:5])), F.nloc(L), F.qn)
+
+
 # ------------------------------------------------------------------------------------------------
 def index_guards(P, rep, tu, rule="G3.index"):
     """every literal subscript on a vector<string> line is dominated by a size test implying the index is in range"""
@@ -809,7 +868,17 @@ def base64_length(P, rep, rule="VTU.base64-length"):
         elif c in ("(rawNumberOfBytes==0)", "(0==rawNumberOfBytes)") and len(then_r) == 1 and len(else_r) == 1:
             zero, nonzero = then_r[0], else_r[0]
     elif not ifs and len(rets) == 1:
-        nonzero = zero = rets[0]
+        r0 = sc(rets[0]["c"][0])
+        if r0.get("k") == "ConditionalOperator":
+            # `n != 0 ? f(n) : 0` -- the same case split written as a conditional expression
+            cc = norm.render(P, r0["c"][0], nocast=True).replace(" ", "")
+            a_, b_ = r0["c"][1], r0["c"][2]
+            if cc in ("(rawNumberOfBytes!=0)", "(rawNumberOfBytes>0)", "(0!=rawNumberOfBytes)"):
+                nonzero, zero = {"c": [a_]}, {"c": [b_]}
+            elif cc in ("(rawNumberOfBytes==0)", "(0==rawNumberOfBytes)"):
+                nonzero, zero = {"c": [b_]}, {"c": [a_]}
+        else:
+            nonzero = zero = rets[0]
     if nonzero is None:
         rep.unknown(rule, "encodedNumberOfBytes: shape not recognised")
         return
@@ -827,7 +896,7 @@ def base64_length(P, rep, rule="VTU.base64-length"):
     if sp.simplify(z0) != 0:
         bad.append("n = 0: %s instead of 0" % z0)
     if bad:
-        rep.violation(rule, "encodedNumberOfBytes: %s" % "; ".join(bad), F.nloc(nonzero), F.qn, norm.render(P, nonzero["c"][0])[:120],
+        rep.violation(rule, "encodedNumberOfBytes: %s" % "; ".join(bad), F.nloc(nonzero["c"][0]), F.qn, norm.render(P, nonzero["c"][0])[:120],
                       "offsets of the appended data arrays are wrong: the Base64Appended .vtu is not well formed for some node counts",
                       key=rule + "|closed-form", witness="vtu_output_format = Base64Appended with a data block whose byte count is in the affected residue class")
     else:
